@@ -48,6 +48,11 @@ int libwifi_check_wpa_handshake(struct libwifi_frame *frame) {
 
     // Represent the LLC layer so that we can check the OUI and ensure it is correct
     struct libwifi_logical_link_ctrl *llc = (struct libwifi_logical_link_ctrl *) (frame->body);
+
+    // An LLC header with the SNAP extension starts AA AA 03 (DSAP, SSAP, unnumbered information)
+    if (llc->dsap != 0xAA || llc->ssap != 0xAA || llc->control != 0x03) {
+        return -EINVAL;
+    }
     if (memcmp(llc->oui, XEROX_OUI, sizeof(llc->oui)) != 0) {
         return -EINVAL;
     }
